@@ -14,6 +14,7 @@ class Ctx:
         self.facts = facts_by_config  # config -> Facts
         self.tier = tier
         self.obs = []  # dicts
+        self._seen = set()
         self.analysed_fns = set()
         self.analysed_paths = 0
         self.analysed_calls = 0
@@ -26,9 +27,11 @@ class Ctx:
 
     def ob(self, rule, site, ok, detail="", loc=None, config=None):
         """Record one obligation. `site` identifies the construct without line numbers."""
-        self.obs.append(
-            {"rule": rule, "site": site, "ok": bool(ok), "detail": detail, "loc": loc, "config": config}
-        )
+        o = {"rule": rule, "site": site, "ok": bool(ok), "detail": detail, "loc": loc, "config": config}
+        k = (rule, site, bool(ok), detail, config)
+        if k not in self._seen:
+            self._seen.add(k)
+            self.obs.append(o)
         return bool(ok)
 
     def floor(self, rule, what, count, floor, config=None):
